@@ -8,13 +8,17 @@ import re
 
 LEAN = os.path.join(os.path.dirname(os.path.dirname(os.path.abspath(__file__))), 'lean')
 
-MIN = {'C01': 10, 'C02': 18, 'C03': 10, 'C04': 17, 'C05': 7, 'C06': 9, 'C07': 19, 'C08': 87, 'C09': 4, 'C10': 51, 'C11': 14, 'C12': 3,
-       'C13': 24, 'C14': 38, 'C15': 26, 'C16': 28, 'C17': 63, 'C18': 5, 'C19': 15}
+MIN = {'C01': 10, 'C02': 18, 'C03': 10, 'C04': 40, 'C05': 16, 'C06': 17, 'C07': 97, 'C08': 87, 'C09': 4, 'C10': 51, 'C11': 14, 'C12': 3,
+       'C13': 24, 'C14': 65, 'C15': 36, 'C16': 36, 'C17': 63, 'C18': 5, 'C19': 15}
 
 # the headline theorems: each must be present by name (and is audited like the others)
 HEADLINE = {
     'C01': ['PMC.C01.ctl_exact', 'PMC.C01.ctl_exact_memo'], 'C02': ['PMC.C02.ltl_exact', 'PMC.C02.ltl_excluded_iff_lasso'],
     'C03': ['PMC.C03.ctls_exact', 'PMC.C03.ctls_exact_partial', 'PMC.C03.namesOK_of_wf'],
+    'C04': ['PMC.C04.three_checkers_agree', 'PMC.C04.ctls_eq_ctl'], 'C06': ['PMC.C06.ctls_presentation', 'PMC.C06.ctls_rename_states'],
+    'C07': ['PMC.C07.ctls_frame_labels', 'PMC.C07.ctlsF_frame', 'PMC.C07.shallow_clone_breaks_frame'],
+    'C14': ['PMC.C14.clone_shares_no_label_set', 'PMC.C14.construct_distinct'],
+    'C15': ['PMC.C15.fairStatesSpec_exact', 'PMC.C15.spec_all_paths_fair'], 'C16': ['PMC.C16.history_canonical'],
 }
 
 EXTRA_MODULES = {}
